@@ -27,6 +27,7 @@ type c16Call struct {
 	Seed   uint32 `json:"seed"`
 	Action string `json:"action"` // answer twice reject never late
 	DelayMS int   `json:"delay_ms"`
+	StartMS int   `json:"start_ms,omitempty"` // the call is issued this long after the others
 
 	key      bitcoin.Hash32
 	height   int
@@ -320,8 +321,8 @@ func c16MakeCall(kind string, seed uint32) *c16Call {
 
 func TestVerif_C16(t *testing.T) {
 	rep := verifkit.NewReport("C16")
-	rep.Rule = "each round: a fresh RemoteClient (full or control connection) against a scripted loopback server; 2..24 concurrent calls of mixed kinds with pairwise distinct keys (at most one fee-quote call); the server answers each by script: after 0-120 ms, twice, with a reject (kinds a Reject can address), never, or after the time-out, interleaved with unsolicited BaseTx/Accept/Reject/Header/Headers; every response is self-identifying and the oracle checks value/reject/time-out per call. Plus outputs-lookup rounds (repeated txids, any order, out-of-range indexes). Non-trivial = round has >=2 concurrent calls and at least one non-plain action; distinct by multiset of (kind, action)"
-	rep.Assumptions = []string{"RequestTimeout 400 ms; an answered call that still times out is only judged when the answer was written >300 ms before the deadline and the round was re-run on its own (first occurrence is inconclusive)", "time-out lower bound uses one monotonic clock in the test process"}
+	rep.Rule = "each round: a fresh RemoteClient (full or control connection) against a scripted loopback server; 2..24 concurrent calls of mixed kinds with pairwise distinct keys (at most one fee-quote call); the server answers each by script: after 0-120 ms, twice, with a reject (kinds a Reject can address), never, or after the time-out; in every fourth round pairs of calls of one kind are staggered so that the first (never answered) times out while the second is pending and answered afterwards, interleaved with unsolicited BaseTx/Accept/Reject/Header/Headers; every response is self-identifying and the oracle checks value/reject/time-out per call. Plus outputs-lookup rounds (repeated txids, any order, out-of-range indexes). Non-trivial = round has >=2 concurrent calls and at least one non-plain action; distinct by multiset of (kind, action)"
+	rep.Assumptions = []string{"RequestTimeout 400 ms; an answered call that still times out is only judged when the answer was written >120 ms before the deadline and the round was re-run on its own (first occurrence is inconclusive)", "time-out lower bound uses one monotonic clock in the test process"}
 	defer rep.Write()
 
 	n := verifkit.N(160, 10000)
@@ -388,6 +389,24 @@ func TestVerif_C16(t *testing.T) {
 			calls = append(calls, c)
 			script.byKey[c16Key(kind, c.key, c.height)] = c
 		}
+		if ci%4 == 1 {
+			// staggered: a call that is never answered times out while a later call of the same
+			// kind (another key) is still pending and is answered after that time-out, well
+			// before its own: "without disturbing other pending calls"
+			for _, kind := range []string{"GetHeaders", "GetTx", "GetHeader", "GetHeaders"} {
+				if r.Intn(3) == 0 {
+					continue
+				}
+				a := c16MakeCall(kind, uint32(900000+ci*100+len(calls)))
+				a.Action = "never"
+				b := c16MakeCall(kind, uint32(900000+ci*100+len(calls)+1))
+				b.Action, b.StartMS, b.DelayMS = "answer", 230, 200
+				for _, c := range []*c16Call{a, b} {
+					calls = append(calls, c)
+					script.byKey[c16Key(kind, c.key, c.height)] = c
+				}
+			}
+		}
 		noiseRand := rand.New(rand.NewSource(r.Int63()))
 		e, err := newCEnv(cOpt{connType: connType, requestTimeout: c16Timeout, messageTimeout: 2 * time.Second,
 			handshakeTO: 2 * time.Second, retryDelay: 30 * time.Millisecond, autoReady: true},
@@ -417,6 +436,9 @@ func TestVerif_C16(t *testing.T) {
 			wg.Add(1)
 			go func(c *c16Call) {
 				defer wg.Done()
+				if c.StartMS > 0 {
+					time.Sleep(time.Duration(c.StartMS) * time.Millisecond)
+				}
 				c16DoCall(e, c)
 			}(c)
 		}
@@ -437,7 +459,7 @@ func TestVerif_C16(t *testing.T) {
 		witness := func() interface{} {
 			var w []string
 			for _, c := range calls {
-				w = append(w, fmt.Sprintf("%s seed=%d action=%s delay=%dms start=%v end=%v wrote=%v err=%s okValue=%v %s", c.Kind, c.Seed, c.Action, c.DelayMS, c.start.Round(time.Millisecond), c.end.Round(time.Millisecond), c.wroteAt.Round(time.Millisecond), fmtErr(c.err), c.okValue, c.valueErr))
+				w = append(w, fmt.Sprintf("%s seed=%d action=%s delay=%dms issued+%dms start=%v end=%v wrote=%v err=%s okValue=%v %s", c.Kind, c.Seed, c.Action, c.DelayMS, c.StartMS, c.start.Round(time.Millisecond), c.end.Round(time.Millisecond), c.wroteAt.Round(time.Millisecond), fmtErr(c.err), c.okValue, c.valueErr))
 			}
 			return map[string]interface{}{"connection_type": connType.String(), "calls": w, "unsolicited_sent": script.noise}
 		}
@@ -459,7 +481,7 @@ func TestVerif_C16(t *testing.T) {
 					rep.Finding(ci, "C16/"+c.Kind+"/wrong-response", c.valueErr, witness())
 				} else if isTimeout {
 					// the scripted answer was written; was there ample time to route it?
-					if c.wroteAt > 0 && c.wroteAt-c.start < c16Timeout-300*time.Millisecond {
+					if c.wroteAt > 0 && c.wroteAt-c.start < c16Timeout-120*time.Millisecond {
 						if verifkit.OnlyCase() >= 0 {
 							rep.Finding(ci, "C16/"+c.Kind+"/answered-call-timed-out", fmt.Sprintf("%s: the server wrote the answer %v after the call started, the call still failed with Timeout after %v", c.Kind, (c.wroteAt - c.start).Round(time.Millisecond), elapsed.Round(time.Millisecond)), witness())
 						} else {
@@ -477,7 +499,7 @@ func TestVerif_C16(t *testing.T) {
 					continue
 				}
 				if isTimeout {
-					if c.wroteAt > 0 && c.wroteAt-c.start < c16Timeout-300*time.Millisecond {
+					if c.wroteAt > 0 && c.wroteAt-c.start < c16Timeout-120*time.Millisecond {
 						if verifkit.OnlyCase() >= 0 {
 							rep.Finding(ci, "C16/"+c.Kind+"/reject-not-delivered", "scripted reject was written in time, the call timed out", witness())
 						} else {
